@@ -42,7 +42,7 @@ def write(prop, tier, seed, results, violations, known_hits, undecided, wall):
             n_dis += r.get('n_discharged', 0)
         fn = dict(job=r['job'], function=r['func'], status=r['status'], obligations=r.get('n_obligations', 0),
                   discharged=r.get('n_discharged', 0), backend=r.get('backend'), solver_s=r.get('solver_s'),
-                  canary_reached=r.get('canary_ok'), source=r.get('metas'), extraction_rules=r.get('rules'),
+                  canary_reached=r.get('canary_ok'), reused_from_cache=bool(r.get('cached')), source=r.get('metas'), extraction_rules=r.get('rules'),
                   dropped_by_extraction=(r.get('dropped') or [])[:12], tu_sha256=r.get('tu_sha256'))
         if r.get('diag'):
             fn['diagnostic'] = r['diag'][:600]
